@@ -14,6 +14,12 @@ import (
 	"fmt"
 	"go/token"
 	"go/types"
+	"os"
+	"path/filepath"
+	"sort"
+	"strconv"
+	"strings"
+	"sync"
 
 	"golang.org/x/tools/go/ssa"
 
@@ -82,6 +88,7 @@ type scheduler struct {
 }
 
 func (i *interpreter) resetSched() {
+	i.syncUses = map[interface{}]*syncUse{}
 	main := &thread{id: 0, wake: make(chan struct{}), vc: vclock{1}, name: "main"}
 	i.sched = &scheduler{threads: []*thread{main}, cur: main, acc: map[interface{}]*accessRec{}, atomics: map[*value]vclock{}}
 	i.vclock = int64(1_700_000_000_000_000_000) // virtual wall clock: some date in 2023
@@ -251,10 +258,23 @@ func (i *interpreter) schedPoint(fr *frame, why string) {
 	if len(en) == 1 {
 		return
 	}
+	if schedStat != nil {
+		schedStatMu.Lock()
+		schedStat[why+" @"+repoSite(fr)]++
+		schedStatMu.Unlock()
+	}
 	// fairness: Go's scheduler is preemptive, so a thread cannot run for ever
 	// while another one is enabled.  After many scheduling points without a
 	// switch the next enabled thread is run (not a decision, not a preemption).
 	cur.sinceSwitch++
+	if i.cfg.ProbeMode {
+		// hot-site probe: no forking, the threads take turns every few scheduling points
+		if cur.sinceSwitch >= 5 {
+			cur.sinceSwitch = 0
+			i.switchTo(en[1])
+		}
+		return
+	}
 	if cur.sinceSwitch > fairnessWindow {
 		cur.sinceSwitch = 0
 		i.switchTo(en[1])
@@ -267,8 +287,39 @@ func (i *interpreter) schedPoint(fr *frame, why string) {
 	if k != 0 {
 		s.preemptions++
 		cur.sinceSwitch = 0
+		if site := repoSite(fr); site != "" {
+			i.path.preempts = append(i.path.preempts, site)
+		}
 		i.switchTo(en[k])
 	}
+}
+
+// RepoModule is the import path prefix of the code under test.
+var RepoModule = "github.com/jig/lisp"
+
+// repoSite names the innermost statement of the code under test that the
+// thread of fr is executing: "dir/file.go:line" relative to the module root.
+func repoSite(fr *frame) string {
+	for ; fr != nil; fr = fr.caller {
+		if fr.fn == nil || fr.fn.Pkg == nil || fr.cur == nil {
+			continue
+		}
+		pp := fr.fn.Pkg.Pkg.Path()
+		if pp != RepoModule && !strings.HasPrefix(pp, RepoModule+"/") {
+			continue
+		}
+		pos := fr.cur.Pos()
+		if !pos.IsValid() {
+			continue
+		}
+		ps := fr.i.prog.Fset.Position(pos)
+		rel := strings.TrimPrefix(strings.TrimPrefix(pp, RepoModule), "/")
+		if rel != "" {
+			rel += "/"
+		}
+		return rel + filepath.Base(ps.Filename) + ":" + strconv.Itoa(ps.Line)
+	}
+	return ""
 }
 
 // block suspends the current thread until cond holds.
@@ -420,6 +471,7 @@ func (i *interpreter) chanSend(fr *frame, c *chanModel, v value) {
 	if c.capacity == 0 {
 		unsupported("send on unbuffered channel")
 	}
+	i.syncWrite(c)
 	i.schedPoint(fr, "send")
 	if c.closed {
 		panic(runtimeError("send on closed channel"))
@@ -453,6 +505,7 @@ func (i *interpreter) chanRecv(fr *frame, c *chanModel) (value, bool) {
 	if c == nil {
 		i.block(fr, func() bool { return false }, "receive from nil channel")
 	}
+	i.syncWrite(c)
 	i.schedPoint(fr, "recv")
 	i.block(fr, func() bool { return c.closed || len(c.buf) > 0 }, "channel receive")
 	if len(c.buf) > 0 {
@@ -469,6 +522,7 @@ func (i *interpreter) chanClose(fr *frame, c *chanModel) {
 	if c.closed {
 		panic(runtimeError("close of closed channel"))
 	}
+	i.syncWrite(c)
 	i.schedPoint(fr, "close")
 	oldvc := c.vc
 	i.logUndo(func() { c.closed = false; c.vc = oldvc })
@@ -491,7 +545,26 @@ func (i *interpreter) doSelect(fr *frame, instr *ssa.Select) value {
 			states[k].v = fr.get(s.Send)
 		}
 	}
-	i.schedPoint(fr, "select")
+	// a non-blocking select that only polls channels for reception reads their state; a select on nil
+	// channels only touches nothing: both are scheduling points only where they can interact (see syncRead)
+	poll := !instr.Blocking
+	need := false
+	for _, st := range states {
+		if st.c == nil {
+			continue
+		}
+		if poll && !st.send {
+			if i.syncRead(fr, st.c, "poll") {
+				need = true
+			}
+		} else {
+			i.syncWrite(st.c)
+			need = true
+		}
+	}
+	if need {
+		i.schedPoint(fr, "select")
+	}
 	ready := func() []int {
 		i.fireTimers()
 		var r []int
@@ -537,6 +610,7 @@ func (i *interpreter) doSelect(fr *frame, instr *ssa.Select) value {
 			}
 			i.chanPut(s.c, s.v)
 		} else if len(s.c.buf) > 0 {
+			i.syncWrite(s.c)
 			recv = i.chanTake(s.c)
 			recvOk = true
 		} else {
@@ -567,6 +641,7 @@ type mutexModel struct {
 	wwait   int // writers waiting (a blocked Lock excludes new readers)
 	vc      vclock
 	rvc     vclock
+	id      int // creation number for models created during the (deterministic) setup, 0 for those created on a path
 }
 
 func (i *interpreter) mutexOf(recv value) *mutexModel {
@@ -579,6 +654,10 @@ func (i *interpreter) mutexOf(recv value) *mutexModel {
 		return m
 	}
 	m := &mutexModel{writer: -1}
+	if i.path != nil && i.path.setup {
+		i.setupMutexes++
+		m.id = i.setupMutexes
+	}
 	old := st[0]
 	i.logUndo(func() { st[0] = old })
 	st[0] = m
@@ -594,6 +673,7 @@ func (i *interpreter) mutexSnapshot(m *mutexModel) {
 }
 
 func (i *interpreter) mutexLock(fr *frame, m *mutexModel) {
+	i.syncWrite(m)
 	i.schedPoint(fr, "Lock")
 	tid := i.sched.cur.id
 	free := func() bool { return m.writer < 0 && len(m.readers) == 0 }
@@ -622,7 +702,9 @@ func (i *interpreter) mutexUnlock(fr *frame, m *mutexModel) {
 }
 
 func (i *interpreter) mutexRLock(fr *frame, m *mutexModel) {
-	i.schedPoint(fr, "RLock")
+	if i.syncRead(fr, m, "RLock") {
+		i.schedPoint(fr, "RLock")
+	}
 	tid := i.sched.cur.id
 	ok := func() bool { return m.writer < 0 && m.wwait == 0 }
 	if !ok() {
@@ -641,7 +723,9 @@ func (i *interpreter) mutexRUnlock(fr *frame, m *mutexModel) {
 	m.readers = m.readers[:len(m.readers)-1]
 	m.rvc = m.rvc.clone()
 	i.release(&m.rvc)
-	i.schedPoint(fr, "RUnlock")
+	if i.syncRead(fr, m, "RUnlock") {
+		i.schedPoint(fr, "RUnlock")
+	}
 }
 
 // fatalError is an unrecoverable runtime throw (e.g. unlock of unlocked mutex).
@@ -717,4 +801,141 @@ func (i *interpreter) advanceClock() bool {
 	i.vclock = best.when
 	i.fireTimers()
 	return true
+}
+
+// SYMGO_SCHEDSTAT=1: count scheduling points by kind and site (diagnostics)
+var schedStat map[string]int
+var schedStatMu sync.Mutex
+
+func init() {
+	if os.Getenv("SYMGO_SCHEDSTAT") != "" {
+		schedStat = map[string]int{}
+	}
+}
+
+// DumpSchedStat prints the collected counts.
+func DumpSchedStat() {
+	if schedStat == nil {
+		return
+	}
+	type kv struct {
+		k string
+		v int
+	}
+	var l []kv
+	for k, v := range schedStat {
+		l = append(l, kv{k, v})
+	}
+	sort.Slice(l, func(a, b int) bool { return l[a].v > l[b].v })
+	for _, e := range l {
+		fmt.Fprintf(os.Stderr, "%8d %s\n", e.v, e.k)
+	}
+}
+
+// ---------------------------------------------------------------- read-only synchronisation operations
+//
+// RLock/RUnlock, atomic loads and non-blocking receive polls do not change what
+// any other thread can observe unless some other thread performs a modifying
+// operation (Lock, send, receive, close, atomic store) on the same object.  Such
+// "read" operations are scheduling points only at source sites in the hot set:
+// the set of read sites that touched, in some explored execution, an object also
+// modified by another thread in that execution.  Whenever a path discovers a new
+// hot site the whole exploration restarts with the larger set (Explore), so the
+// final, complete exploration ran with a set under which no skipped read
+// operation conflicts with anything in any explored execution; by the usual
+// commutation argument (the first conflict of an unexplored execution would also
+// occur in an explored one with the same per-thread operation sequences, and
+// conflicts are flagged whatever their order) that exploration covers every
+// interleaving of the full scheduling-point set up to equivalence.
+
+type syncUse struct {
+	readers, writers uint64
+	readSites        map[string]bool
+}
+
+type hotSet struct {
+	mu    sync.RWMutex
+	sites map[string]bool
+	added int64
+}
+
+func (h *hotSet) has(site string) bool {
+	h.mu.RLock()
+	r := h.sites[site]
+	h.mu.RUnlock()
+	return r
+}
+
+func (h *hotSet) add(sites map[string]bool) bool {
+	h.mu.Lock()
+	defer h.mu.Unlock()
+	grew := false
+	for s := range sites {
+		if !h.sites[s] {
+			h.sites[s] = true
+			h.added++
+			grew = true
+		}
+	}
+	return grew
+}
+
+func (i *interpreter) syncUseOf(obj interface{}) *syncUse {
+	u := i.syncUses[obj]
+	if u == nil {
+		u = &syncUse{readSites: map[string]bool{}}
+		i.syncUses[obj] = u
+	}
+	return u
+}
+
+// syncRead records a read-only synchronisation operation and reports whether it is a scheduling point.
+func (i *interpreter) syncRead(fr *frame, obj interface{}, why string) bool {
+	s := i.sched
+	if s == nil || i.path == nil || i.path.setup || i.hot == nil {
+		return true
+	}
+	rs := repoSite(fr)
+	if rs == "" {
+		// not inside the code under test (harness, library internals without a caller in it): always a point
+		i.syncWrite(obj)
+		return true
+	}
+	site := why + "@" + rs
+	if m, ok := obj.(*mutexModel); ok && m.id != 0 {
+		// a mutex that exists since the setup (e.g. the root environment's) is told apart from the
+		// mutexes of objects created on the path (e.g. the scopes of one evaluation)
+		site += "#" + strconv.Itoa(m.id)
+	}
+	u := i.syncUseOf(obj)
+	bit := uint64(1) << uint(s.cur.id&63)
+	u.readers |= bit
+	u.readSites[site] = true
+	if u.writers&^bit != 0 {
+		i.markHot(u)
+	}
+	return i.hot.has(site)
+}
+
+// syncWrite records a modifying synchronisation operation on obj.
+func (i *interpreter) syncWrite(obj interface{}) {
+	s := i.sched
+	if s == nil || i.path == nil || i.path.setup || i.hot == nil {
+		return
+	}
+	u := i.syncUseOf(obj)
+	bit := uint64(1) << uint(s.cur.id&63)
+	u.writers |= bit
+	if u.readers&^bit != 0 {
+		i.markHot(u)
+	}
+}
+
+func (i *interpreter) markHot(u *syncUse) {
+	if len(u.readSites) == 0 {
+		return
+	}
+	if i.hot.add(u.readSites) {
+		i.hotGrew()
+	}
 }
